@@ -104,6 +104,39 @@ func init() {
 		}, sp
 	}})
 
+	// Q8 nested: a callback submits to its own group and to another group from inside (a worker is a producer
+	// too), while a request for the first resource arrives.
+	reg(&Scenario{Name: "Q8", Make: func(cfg Cfg) (func(), *Spec) {
+		sp := &Spec{MustRun: []string{"R1", "W1", "W2", "W3", "W4"}, Closes: -1, Order: [][2]string{{"W1", "W2"}, {"W2", "W4"}}}
+		if cfg.Group == "parallel" {
+			sp.Order = nil
+		}
+		return func() {
+			w := NewWorld(cfg)
+			sdone := make(chan struct{}, 1)
+			w.StartServe(sdone)
+			done := make(chan struct{}, 4)
+			spawn("N", done, func() { w.Req("get."+w.A("1"), "R1") })
+			spawn("P", done, func() {
+				vsched.Note(Mon, "submit W1")
+				w.S.With(w.A("1"), func(r res.Resource) {
+					vsched.Emit(Mon, "enter W1 g="+r.Group()+" want="+w.RefGroup(r.ResourceName()))
+					if p := w.scratch[r.Group()]; p != nil {
+						*p++
+					}
+					w.With("W2", w.A("1")) // own group: must wait for W1 to finish
+					w.With("W3", w.A("2")) // another group
+					w.With("W4", w.A("1"))
+					vsched.Emit(Mon, "exit W1")
+				})
+				vsched.Note(Mon, "ret W1 ok")
+			})
+			join(done, 2)
+			vsched.AwaitQuiescence()
+			vsched.Emit(Mon, "quiesced")
+		}, sp
+	}})
+
 	// Q2 idle->busy: a group drains completely, then is hit again by P and N concurrently.
 	reg(&Scenario{Name: "Q2", Make: func(cfg Cfg) (func(), *Spec) {
 		sp := &Spec{MustRun: []string{"W0", "R1", "W1"}, Closes: -1, Order: [][2]string{{"W0", "R1"}, {"W0", "W1"}}}
